@@ -16,3 +16,10 @@ class Msg(object):
 
     def __repr__(self):
         return "Msg(%r, %r, %r)" % (self.x, self.f, self.g)
+
+
+class Touchy(object):
+    """a type whose field raises when it is read (parse() reads the fields a specification names to check their type)"""
+    @property
+    def p(self):
+        raise ValueError("not available")
